@@ -6,7 +6,9 @@ From Coq Require Import List PArith ZArith Bool Permutation.
 Import ListNotations.
 Require Import Verif.DataModel.DmShapeTypes Verif.DataModel.DmModel Verif.DataModel.DmCurrent
                Verif.DataModel.DmProps Verif.DataModel.DmWrapCurrent Verif.DataModel.DmWrap Verif.DataModel.DmWrapProps Verif.DataModel.DmResolve
-               Verif.Gen.DmShape Verif.Gen.DmWrap.
+               Verif.Gen.DmShape Verif.Gen.DmWrap
+               Verif.DataModel.DmResolveFk
+               Verif.DataModel.DmMermaid Verif.DataModel.DmMermaidProps Verif.DataModel.DmMermaidCurrent Verif.Gen.DmMermaid.
 
 (* obligation against the source: alias allocation, reference counting and dispatch are as the theorems assume *)
 Theorem C15_shape_current : shape_of_source = fixed_shape.
@@ -14,7 +16,8 @@ Proof. exact shape_current. Qed.
 Print Assumptions C15_shape_current.
 
 (* second obligation against the source (round 3): Execute of `sysl datamodel`, the four functions of datamodel.go,
-   DrawEnum and getNames have, token for token, the statements the model transliterates *)
+   UniqueVarForAppName, DrawRelationship, DrawPrimitive, DrawTuple, DrawEnum, getNames and (second pass) DrawRelation,
+   GenerateDataView, addRelationship, collectionOf have, token for token, the statements the model transliterates *)
 Theorem C15_wrap_current : wrap_text_of_source = fixed_wrap_text.
 Proof. exact wrap_current. Qed.
 Print Assumptions C15_wrap_current.
@@ -43,14 +46,27 @@ Theorem C15_dm_classes_exact_refuted : exists es o a n1 n2 h1 h2,
 Proof. exact dm_classes_exact_refuted. Qed.
 Print Assumptions C15_dm_classes_exact_refuted.
 
-(* fields, refuted in full: a collection-typed table column is listed as no_primitive (tuple fields: see
-   ref_label_names_path, prim_label; every tuple field with a type and every table column has its line by
-   C15_dm_blocks_exact) *)
-Theorem C15_dm_fields_exact_refuted : exists es o f,
-  draw None es = Ok o /\
-  In {| e_app := [2%positive]; e_name := [4%positive]; e_def := DRel [(f, FSet (EPrim 4))] |} es /\ In (IField f (LPrim 0)) o.
-Proof. exact dm_fields_exact_refuted. Qed.
-Print Assumptions C15_dm_fields_exact_refuted.
+(* fields of tables, FULL since fixes C15-5 / C15-7 (was refuted: collection columns were listed as no_primitive): the
+   line of a column names its type - primitive; Table.column path of a foreign key, nested tables included; Set /
+   Sequence / List <element> of a collection column (tuple fields: ref_label_names_path, prim_label; every tuple field
+   with a type and every table column has its line by C15_dm_blocks_exact) *)
+Theorem C15_dm_fields_exact : forall f,
+  rel_line f = IField (fst f) (match snd f with
+                               | FPrim p => LPrim p
+                               | FRef r => if 2 <=? length (r_path r)
+                                           then LFK (join (removelast (r_path r)) ++ last (r_path r) empty_str)
+                                           else LRefd (join (r_parts r ++ r_path r))
+                               | FList e => LColl KList (lab e)
+                               | FSet e => LColl KSet (lab e)
+                               | FSeq e => LColl KSeq (lab e)
+                               | FOther => LPrim 0
+                               end).
+Proof. exact dm_fields_exact. Qed.
+Print Assumptions C15_dm_fields_exact.
+Theorem C15_fk_label_whole_path : forall r, 2 <= length (r_path r) -> concat (removelast (r_path r)) <> [] ->
+  join (removelast (r_path r)) ++ last (r_path r) empty_str = join (r_path r).
+Proof. exact fk_label_whole_path. Qed.
+Print Assumptions C15_fk_label_whole_path.
 
 Theorem C15_tuple_ref_label : forall r, lab (ERef r) = LN (join (r_path r)) \/ exists a, lab (ERef r) = LN (a ++ join (r_path r)).
 Proof. exact ref_label_names_path. Qed.
@@ -67,56 +83,32 @@ Theorem C15_dm_edges_exact_partial : forall filt es o, draw filt es = Ok o ->
 Proof. exact dm_edges_exact_partial. Qed.
 Print Assumptions C15_dm_edges_exact_partial.
 
-(* ... and that resolution is the plain one for one-element paths *)
-Theorem C15_resolution_plain : forall tm ign r p0, r_path r = [p0] ->
-  mem_str (join [p0]) ign = false -> has_type tm p0 = false ->
+(* ... and that resolution is (fixes C15-6, C15-7): application of the reference or of its context, then the WHOLE path *)
+Theorem C15_resolution_whole_path : forall tm ign r,
+  mem_str (join (r_path r)) ign = false ->
+  is_empty_str (match r_app r with Some a => a | None => r_ctx r end) = false ->
   tuple_parts tm ign (FRef r) =
     let app := match r_app r with Some a => a | None => r_ctx r end in
-    if has_type tm (app ++ p0) then Some [app; p0] else None.
-Proof. exact tuple_parts_plain. Qed.
-Print Assumptions C15_resolution_plain.
+    if has_type tm (app ++ join (r_path r)) then Some [app; join (r_path r)] else None.
+Proof. exact tuple_parts_whole_path. Qed.
+Print Assumptions C15_resolution_whole_path.
 
-(* relationships, refuted in full: nested names; references to primitive aliases *)
-Theorem C15_dm_edges_exact_refuted : exists es o a n,
-  draw None es = Ok o /\ In (IClass a (2%positive :: n) HClass) o /\
-  In {| e_app := [2%positive]; e_name := [4%positive];
-        e_def := DTuple [(1%positive, FRef {| r_ctx := [2%positive]; r_app := None; r_parts := []; r_path := [[4%positive]; [5%positive]] |})] |} es /\
-  n = join [[4%positive]; [5%positive]] /\ forall x y, count_edges o x y = 0.
-Proof. exact dm_edges_exact_refuted. Qed.
-Print Assumptions C15_dm_edges_exact_refuted.
-
+(* relationships, still refuted in full: references to primitive aliases (golden-pinned alias of DrawPrimitive).  The
+   refutation for nested names is gone with fix C15-7 (DmProps.ex_nested_draws: the line is drawn). *)
 Theorem C15_dm_edges_prim_alias_refuted : exists es o a b c ar,
   draw None es = Ok o /\ In (IEdge a b c ar) o /\ forall n h, ~ In (IClass b n h) o.
 Proof. exact dm_edges_prim_alias_refuted. Qed.
 Print Assumptions C15_dm_edges_prim_alias_refuted.
 
-(* per-application view, no hypothesis: the view of `a` declares exactly the covered types whose App.Type name has `a`
-   as its first '.'-chunk *)
-Theorem C15_view_of_app_chunk : forall a es o, draw (Some a) es = Ok o ->
+(* per-application view, FULL since fixes C15-3 / C15-9 (was: partial for application names without '.', refuted for
+   names with '.'): the view restricted to the applications `apps` declares exactly the covered types of those
+   applications *)
+Theorem C15_view_of_app_exact : forall apps es o, draw (Some apps) es = Ok o ->
   (forall al n h, In (IClass al n h) o ->
-     exists e, In e (type_map es) /\ [hd eps (e_key e)] = a /\ is_drawn e = true /\ n = e_key e) /\
-  (forall e, In e (type_map es) -> [hd eps (e_key e)] = a -> is_drawn e = true -> exists al h, In (IClass al (e_key e) h) o).
-Proof. exact view_of_app_chunk. Qed.
-Print Assumptions C15_view_of_app_chunk.
-
-(* per-application view, application names without '.': exactly the covered types of that application are declared
-   (round 3: application names are strings; before, the model could not express a name with '.') *)
-Theorem C15_view_of_app_exact : forall a es o, draw (Some a) es = Ok o ->
-  plain_app a -> (forall e, In e (type_map es) -> plain_app (e_app e)) ->
-  (forall al n h, In (IClass al n h) o ->
-     exists e, In e (type_map es) /\ e_app e = a /\ is_drawn e = true /\ n = e_key e) /\
-  (forall e, In e (type_map es) -> e_app e = a -> is_drawn e = true -> exists al h, In (IClass al (e_key e) h) o).
+     exists e, In e (type_map es) /\ In (e_app e) apps /\ is_drawn e = true /\ n = e_key e) /\
+  (forall e, In e (type_map es) -> In (e_app e) apps -> is_drawn e = true -> exists al h, In (IClass al (e_key e) h) o).
 Proof. exact view_of_app_exact. Qed.
 Print Assumptions C15_view_of_app_exact.
-
-(* ... refuted for application names with '.': the view of App.2 is empty, the view of App declares App.2's types *)
-Theorem C15_view_of_dotted_app_refuted :
-  (exists e, In e (type_map ex_dotted_app) /\ e_app e = [2%positive; 3%positive] /\ is_drawn e = true /\
-     draw (Some [2%positive; 3%positive]) ex_dotted_app = Ok []) /\
-  (exists o al h e, draw (Some [2%positive]) ex_dotted_app = Ok o /\ In (IClass al (e_key e) h) o /\
-     In e (type_map ex_dotted_app) /\ e_app e <> [2%positive]).
-Proof. exact view_of_dotted_app_refuted. Qed.
-Print Assumptions C15_view_of_dotted_app_refuted.
 
 (* enum items, full since cdeb394 (repeated values included): every enumerator is listed exactly once, in the order
    of the values (the lines of an enum block are given by C15_dm_blocks_exact: header, enum_lines, brace) *)
@@ -137,29 +129,30 @@ Print Assumptions C15_direct_whole_model.
 
 Theorem C15_direct_per_app_exact : forall output apps m, gen_models (WDirect true output apps) = Some m ->
   NoDup (map w_out apps) ->
-  (forall a, In a apps -> wlookup (w_out a) m = Some (Some (w_name a))) /\
+  (forall a, In a apps -> wlookup (w_out a) m = Some (Some [w_name a])) /\
   (forall k, In k (wkeys m) -> exists a, In a apps /\ k = w_out a).
 Proof. exact direct_per_app_exact. Qed.
 Print Assumptions C15_direct_per_app_exact.
 
-Theorem C15_project_endpoint_partial : forall has_ep eps m e, gen_models (WProject true has_ep eps) = Some m ->
+(* project manner, FULL since fix C15-9 (was: the view of the LAST application named; refuted for two): the file of a
+   matched endpoint holds one view, restricted to ALL the applications its action statements name *)
+Theorem C15_project_endpoint_exact : forall has_ep eps m e, gen_models (WProject true has_ep eps) = Some m ->
   NoDup (map ep_out eps) -> In e eps -> ep_match e = true ->
-  wlookup (ep_out e) m = option_map (view_of has_ep) (last_target (ep_stmts e) None).
-Proof. exact project_endpoint_partial. Qed.
-Print Assumptions C15_project_endpoint_partial.
+  wlookup (ep_out e) m = match named_apps (ep_stmts e) with [] => None | named => Some (view_of has_ep named) end.
+Proof. exact project_endpoint_exact. Qed.
+Print Assumptions C15_project_endpoint_exact.
 
-(* ... refuted in full: an endpoint naming two applications is drawn as the view of the second only *)
-Theorem C15_project_endpoint_covers_all_refuted : exists eps m a b out,
-  gen_models (WProject true true eps) = Some m /\
-  eps = [ {| ep_out := out; ep_match := true; ep_stmts := [WAction (Some a); WAction (Some b)] |} ] /\ a <> b /\
-  wlookup out m = Some (Some b) /\ forall k, wlookup k m <> Some (Some a).
-Proof. exact project_endpoint_covers_all_refuted. Qed.
-Print Assumptions C15_project_endpoint_covers_all_refuted.
+Theorem C15_project_endpoint_covers_all : forall eps m e a, gen_models (WProject true true eps) = Some m ->
+  NoDup (map ep_out eps) -> In e eps -> ep_match e = true -> In (WAction (Some a)) (ep_stmts e) ->
+  exists named, wlookup (ep_out e) m = Some (Some named) /\ (forall b, In b named <-> In (WAction (Some b)) (ep_stmts e)).
+Proof. exact project_endpoint_covers_all. Qed.
+Print Assumptions C15_project_endpoint_covers_all.
 
 (* reference resolution: fix_scope / resolve are the compiler's scoping rule (pkg/parse fixTypeRefScope, JoinTypeRefScope);
-   DrawTuple resolves a reference as the compiler does on EVERY module exactly when the reference is plain (one path
-   element of one chunk; no application part, or the current application, or a namespaced application) - the
-   remaining references are the four classes DmResolve.differs_nested / _dotted / _ctx / _one_part *)
+   DrawTuple resolves a reference as the compiler does on EVERY module exactly when the reference is plain: ANY path
+   (second pass: nested names and names with '.' included, fixes C15-6 / C15-7); no application part and the own
+   context, or the current application, or a namespaced application - the remaining references are the two classes
+   DmResolve.differs_ctx (in-place tuples) / differs_one_part (unrescoped elements of collections) *)
 Theorem C15_fix_scope_idempotent : forall es curr r, fix_scope es curr (fix_scope es curr r) = fix_scope es curr r.
 Proof. exact fix_scope_idempotent. Qed.
 Print Assumptions C15_fix_scope_idempotent.
@@ -169,33 +162,18 @@ Theorem C15_resolution_agrees_iff : forall curr r t, wf_ref curr r -> ref_of t =
 Proof. exact resolution_agrees_iff. Qed.
 Print Assumptions C15_resolution_agrees_iff.
 
-(* two more refutations (round 3): a table of an application whose name contains '.' gets no line for its local foreign
-   key; all lines from one class to one target carry the cardinality label of the first field *)
-Theorem C15_dm_edges_dotted_app_refuted : exists o a,
-  draw None ex_dotted_table = Ok o /\ In (IClass a [2%positive; 3%positive; 4%positive] HClass) o /\
-  In (IField 2%positive (LFK [4%positive; 6%positive])) o /\ forall x y, count_edges o x y = 0.
-Proof. exact dm_edges_dotted_app_refuted. Qed.
-Print Assumptions C15_dm_edges_dotted_app_refuted.
-
+(* cardinality (round 3): all lines from one class to one target carry the cardinality label of the first field *)
 Theorem C15_dm_card_exact_refuted : exists o,
   draw None ex_card = Ok o /\ count_edges o 0 1 = 2 /\ In (IEdge 0 1 CMany false) o /\ ~ In (IEdge 0 1 COne false) o.
 Proof. exact dm_card_exact_refuted. Qed.
 Print Assumptions C15_dm_card_exact_refuted.
 
-(* the four classes of non-plain references, each with a module on which DrawTuple and the compiler differ *)
-Theorem C15_differs_nested : forall curr r t p0 p1 rest, wf_ref curr r -> ref_of t = Some r -> r_path r = p0 :: p1 :: rest ->
-  exists es, wf_es es /\ code_target es t <> spec_target es curr r.
-Proof. exact differs_nested. Qed.
-Print Assumptions C15_differs_nested.
-Theorem C15_differs_dotted : forall curr r t x y l, wf_ref curr r -> ref_of t = Some r -> r_path r = [x :: y :: l] ->
-  exists es, wf_es es /\ code_target es t <> spec_target es curr r.
-Proof. exact differs_dotted. Qed.
-Print Assumptions C15_differs_dotted.
-Theorem C15_differs_ctx : forall curr r t c, wf_ref curr r -> ref_of t = Some r -> r_path r = [[c]] -> r_parts r = [] -> r_ctx r <> curr ->
+(* the two classes of non-plain references, each with a module on which DrawTuple and the compiler differ *)
+Theorem C15_differs_ctx : forall curr r t, wf_ref curr r -> ref_of t = Some r -> r_parts r = [] -> r_ctx r <> curr ->
   exists es, wf_es es /\ code_target es t <> spec_target es curr r.
 Proof. exact differs_ctx. Qed.
 Print Assumptions C15_differs_ctx.
-Theorem C15_differs_one_part : forall curr r t c a, wf_ref curr r -> ref_of t = Some r -> r_path r = [[c]] -> r_parts r = [a] -> a <> curr ->
+Theorem C15_differs_one_part : forall curr r t a, wf_ref curr r -> ref_of t = Some r -> r_parts r = [a] -> a <> curr ->
   exists es, wf_es es /\ code_target es t <> spec_target es curr r.
 Proof. exact differs_one_part. Qed.
 Print Assumptions C15_differs_one_part.
@@ -204,3 +182,70 @@ Theorem C15_resolution_agrees_plain : forall es curr r t, wf_ref curr r -> plain
   code_target es t = spec_target es curr r.
 Proof. exact resolution_agrees_plain. Qed.
 Print Assumptions C15_resolution_agrees_plain.
+
+(* table foreign keys (second pass): DrawRelation resolves a column reference Table.column - the application of the
+   reference or the table's own, then every path element but the last - as the compiler does (resolve_fk) on EVERY module
+   exactly when the reference has no application part, the current application, or a namespaced one; the context plays
+   no part *)
+Theorem C15_fk_resolution_agrees_iff : forall curr r, wf_fk curr r ->
+  ((forall es, wf_es es -> code_fk es curr r = spec_fk es curr r) <-> plain_fk curr r).
+Proof. exact fk_resolution_agrees_iff. Qed.
+Print Assumptions C15_fk_resolution_agrees_iff.
+
+(* ------------------------------------------------------------------------------------------------------------------
+   Goal 3: the Mermaid data-model view of a whole module (pkg/mermaid/datamodeldiagram GenerateFullDataDiagram over
+   syslwrapper.AppMapper), model DmMermaid.mermaid_full *)
+
+(* obligation against the source: the thirteen functions the model transliterates have the text it was written against *)
+Theorem C15_mermaid_current : mermaid_text_of_source = fixed_mermaid_text.
+Proof. exact mermaid_current. Qed.
+Print Assumptions C15_mermaid_current.
+
+(* classes and fields, full: one block per type of the module, in order - header, one line per listed property or
+   enumerator value, brace - then link lines only *)
+Theorem C15_mm_blocks_exact : forall tbl es o, mermaid_full tbl es = Ok o ->
+  exists cs, convert_all es = Ok cs /\ map fst cs = es /\
+    o = flat_map (block tbl) cs ++ map (mk_link tbl) (add_links [] (flat_map body_links cs)).
+Proof. exact mm_blocks_exact. Qed.
+Print Assumptions C15_mm_blocks_exact.
+
+(* links, full for what this view draws: exactly the (owner, reference) pairs of the reference-typed properties, each
+   pair once (one link per pair, not per field), none else.  `reference` is syslwrapper's own reading of the reference *)
+Theorem C15_mm_links_exact : forall tbl es o, mermaid_full tbl es = Ok o ->
+  exists cs ls, convert_all es = Ok cs /\
+    o = flat_map (block tbl) cs ++ map (mk_link tbl) ls /\ NoDup ls /\
+    forall p, In p ls <-> In p (flat_map body_links cs).
+Proof. exact mm_links_exact. Qed.
+Print Assumptions C15_mm_links_exact.
+
+(* fields: exactly one line for a printable primitive (every primitive but EMPTY since fix C15-10), a reference, a
+   collection of either; no line for anything else *)
+Theorem C15_mm_field_listed : forall tbl f s,
+  (listed s = true -> exists c l, prop_lines tbl f s = [MProp c l f]) /\ (listed s = false -> prop_lines tbl f s = []).
+Proof. exact mm_field_listed. Qed.
+Print Assumptions C15_mm_field_listed.
+
+Theorem C15_mm_reference_plain : forall r p, mr_path r = [p] ->
+  reference r = (match mr_app r with Some a => a | None => match mr_ctx r with Some c => c | None => empty_str end end) ++ p.
+Proof. exact reference_plain. Qed.
+Print Assumptions C15_mm_reference_plain.
+
+(* refuted, with witnesses: a foreign key to another application is linked to the OWN application's table of that name;
+   a nested name Outer.Inner is read as application Outer + type Inner; two enumerators with one value give one line *)
+Theorem C15_mm_cross_app_fk_refuted : exists o,
+  mermaid_full [] ex_mm_fk = Ok o /\ In (MLink [2%positive; 4%positive] [2%positive; 5%positive]) o /\
+  ~ In (MLink [2%positive; 4%positive] [3%positive; 5%positive]) o /\ ~ In (MClass [2%positive; 5%positive]) o.
+Proof. exact mm_cross_app_fk_refuted. Qed.
+Print Assumptions C15_mm_cross_app_fk_refuted.
+
+Theorem C15_mm_nested_refuted : exists o,
+  mermaid_full [] ex_mm_nested = Ok o /\ In (MClass [2%positive; 5%positive; 6%positive]) o /\
+  In (MLink [2%positive; 4%positive] [5%positive; 6%positive]) o /\
+  ~ In (MLink [2%positive; 4%positive] [2%positive; 5%positive; 6%positive]) o.
+Proof. exact mm_nested_refuted. Qed.
+Print Assumptions C15_mm_nested_refuted.
+
+Theorem C15_mm_enum_items_refuted :
+  print_enum [(1%positive, 5%Z); (2%positive, 1%Z); (3%positive, 5%Z)] = [MItem 2%positive 1%Z; MItem 1%positive 5%Z].
+Proof. exact mm_enum_items_refuted. Qed.
+Print Assumptions C15_mm_enum_items_refuted.
